@@ -437,7 +437,7 @@ do_freetree (int h, int slot, int walk_first)
   r->freed = 1;
   if (r->freekind == 1)
     for (i = 0; i < nblk; i++) if (blks[i].parse == r->parse_id && blks[i].live) live++;
-  printf ("%sfreetree termcb=%d liveblocks=%d bad=%ld\n", prefix, n_termcb, live, ev_bad);
+  printf ("%sfreetree termcb=%d liveblocks=%d bad=%ld kind=%d\n", prefix, n_termcb, live, ev_bad, r->freekind);
 }
 
 /* ---------------------------------------------------------------- case reader */
